@@ -357,13 +357,14 @@ class StaticSampler(PointSampler):
         return len(self.sampler)
 
     def __next__(self):
-        if self.created_points:
+        if self.created_points is not None:
             return self.created_points
         return self.sample_points()
 
     def sample_points(self, params=Points.empty(), device="cpu", **kwargs):
         self.counter += 1
-        if self.created_points and self.counter < self.resample_interval:
+        # (a drawn set without any point is a set too: compare with None)
+        if self.created_points is not None and self.counter < self.resample_interval:
             self._change_device(device=device)
             return self.created_points
         # reset counter if over self.resample_interval and create new points
